@@ -201,9 +201,28 @@ def ch_periods(ctx) -> Channel:
                                                        seconds=depth)
                         q = ["start=" + ast.strftime("%Y-%m-%dT%H:%M:%SZ")]
                     q.append(f"depth={depth}")
+                    if c12_lib.live_periods_needed(defn, depth) > 1500:
+                        ch.count("live:skipped (definition too short: > 1500 Periods even for the smallest depth)")
+                        continue
                     runs.append(("live", q, now))
-                for mode, q, now in runs:
+                if rng.random() < ctx.scale(10, 6) / 100:
+                    # MAX_LIVE_PERIODS guard (fix e70c912): a window that needs about `want` Period elements,
+                    # around and far above the limit of 2000 (explicit start, so E and F are known here)
+                    want = rng.choice([1990, 2003, 2200, 5000, 250_000]) if ctx.thorough else \
+                        rng.choice([2003, 2200, 5000, 250_000])
+                    depth = max(1, want * defn.total_us() // (len(defn.periods) * 10 ** 6))
+                    ast = c12_lib.gen_clock(rng).replace(microsecond=0)
+                    now = ast + datetime.timedelta(seconds=depth + rng.randrange(1, 10 ** 6),
+                                                   microseconds=rng.randrange(10 ** 6))
+                    if depth <= 4_000_000:      # the depth option itself is limited to about 58 days
+                        runs.append(("live", ["start=" + ast.strftime("%Y-%m-%dT%H:%M:%SZ"), f"depth={depth}"], now,
+                                     (c12_lib.td_us(now - ast), depth)))
+                for run in runs:
+                    mode, q, now = run[:3]
                     line, impl, fail, b, url = periods_case(app, client, clock, cap, c12_lib, defn, mode, q, now)
+                    if line is None and b.status == 404 and len(run) > 3:
+                        E_us, depth = run[3]
+                        line, impl = f"liveperiods {defn.defs_arg()} {E_us} {E_us - depth * 10 ** 6}", "toomany"
                     rec = {"defn": defn.json(), "mode": mode, "query": q, "now": iso(now)}
                     ch.count(f"{mode}:status={b.status}")
                     if line is None:
@@ -217,7 +236,9 @@ def ch_periods(ctx) -> Channel:
     for (rec, impl, fail, b), mo, line in zip(recs, model, lines):
         ch.evaluations += 1
         n = len(b.periods or [])
-        if mo is not None and rec["mode"] == "live" and mo.startswith("ok "):
+        if mo is not None and rec["mode"] == "live" and mo.startswith("ok ") and b.E_us is None:
+            mo = "ok " + mo.split(" ", 2)[2]
+        elif mo is not None and rec["mode"] == "live" and mo.startswith("ok "):
             # `ok <nl> <periods>`: nl is the float loop count the driver computed (a model parameter)
             _, nl, rest = mo.split(" ", 2)
             mo = "ok " + rest
@@ -228,6 +249,8 @@ def ch_periods(ctx) -> Channel:
             if int(nl) * D > F:
                 ch.count("loop-count:HYPOTHESIS nl*D<=F VIOLATED")
         ch.count(f"{rec['mode']}:periods={'1' if n == 1 else '2-4' if n <= 4 else '5-20' if n <= 20 else '>20'}")
+        if impl == "toomany":
+            ch.count("live:refused-more-than-2000-periods")
         if rec["mode"] == "live" and b.E_us is not None:
             loops = (b.E_us - b.tsbd_s * 10 ** 6) // max(1, sum((p["duration_us"] + 500) // 1000 * 1000
                                                                 for p in rec["defn"]["periods"]))
@@ -704,7 +727,11 @@ def ch_e2e(ctx) -> Channel:
                 for _ in range(ctx.scale(2, 3)):
                     now = c12_lib.gen_clock(rng)
                     q, _ = c12_lib.gen_live_query(rng, now, defn.total_us())
-                    q.append(f"depth={c12_lib.depth_for(rng, defn, 30)}")
+                    depth = c12_lib.depth_for(rng, defn, 30)
+                    q.append(f"depth={depth}")
+                    if c12_lib.live_periods_needed(defn, depth) > 1500:
+                        ch.count("live:skipped (definition too short)")
+                        continue
                     runs.append(("live", q, now))
                 runs += [(m, q + ["timeline=1"], c12_lib.gen_clock(rng) if m == "vod" else nw)
                          for m, q, nw in list(runs) if rng.random() < .6]
